@@ -542,6 +542,7 @@ class ServerRun:
         self.t_enter = None
         self.t_exit0 = None
         self.t_exit1 = None
+        self.backlog_after_exit = 0
 
 
 def run_sync(sim, sc, on_entered=None, drain_wait=30.0):
@@ -569,11 +570,12 @@ def run_sync(sim, sc, on_entered=None, drain_wait=30.0):
         for th in ths:
             th.join()
         # late results of abandoned requests drain; then the server must be idle
+        # (scenario flag 'exit_busy': leave at once instead, with abandoned work still in flight)
         t_end = sim.now + drain_wait
-        while server.backlog and sim.now < t_end:
+        while server.backlog and sim.now < t_end and not sc.get('exit_busy'):
             time.sleep(0.05)
-        out.backlog_end = server.backlog
-        for x in sc.get('post', []):
+        out.backlog_end = 0 if sc.get('exit_busy') else server.backlog
+        for x in sc.get('post', []) if not sc.get('exit_busy') else []:
             r = Rec(-1, x, 'post', 100.0, False)
             out.post.append(r)
             r.t0 = sim.now
@@ -589,6 +591,7 @@ def run_sync(sim, sc, on_entered=None, drain_wait=30.0):
         server.__exit__(None, None, None)
         out.t_exit1 = sim.now
         out.exit_ok = True
+    out.backlog_after_exit = server.backlog
     return out
 
 
@@ -614,10 +617,10 @@ def run_async(sim, sc, on_entered=None, drain_wait=30.0):
                      for ci, c in enumerate(sc['callers'])]
             await asyncio.gather(*tasks)
             t_end = sim.now + drain_wait
-            while server.backlog and sim.now < t_end:
+            while server.backlog and sim.now < t_end and not sc.get('exit_busy'):
                 await asyncio.sleep(0.05)
-            out.backlog_end = server.backlog
-            for x in sc.get('post', []):
+            out.backlog_end = 0 if sc.get('exit_busy') else server.backlog
+            for x in sc.get('post', []) if not sc.get('exit_busy') else []:
                 r = Rec(-1, x, 'post', 100.0, False)
                 out.post.append(r)
                 r.t0 = sim.now
@@ -633,6 +636,10 @@ def run_async(sim, sc, on_entered=None, drain_wait=30.0):
             await server.__aexit__(None, None, None)
             out.t_exit1 = sim.now
             out.exit_ok = True
+        # whatever the library still has scheduled on this loop (finalisers of abandoned streams) gets its turn
+        for _ in range(5):
+            await asyncio.sleep(0)
+        out.backlog_after_exit = server.backlog
 
     asyncio.run(main())
     return out
@@ -644,6 +651,19 @@ def run_scenario(sim, sc, **kw):
     if sc.get('async'):
         return run_async(sim, sc, **kw)
     return run_sync(sim, sc, **kw)
+
+
+def multi_writer(tree):
+    """True if some queue of the tree has more than one writer, or a writer that emits its end marker ahead of its own pending
+    results: a leaf with >=2 workers, a batching worker (collector thread), a worker with extra stream threads, an ensemble or
+    switch relay. On such trees the recorded shutdown defect (reader stops at the FIRST end marker) applies."""
+    for lf in leaves(tree):
+        if lf.get('n', 1) > 1 or (lf.get('b') or 0) > 1 or lf.get('stream_threads'):
+            return True
+
+    def relay(node):
+        return node['t'] in ('ens', 'switch') or any(relay(c) for c in node.get('ch', []))
+    return relay(tree)
 
 
 # ------------------------------------------------------------------------------------------------
